@@ -215,13 +215,12 @@ Example C01t_instance : forall (theta v0 v1 v2 : R) (g g' : bool),
   guard_ok gen_db cRotationGate [v0; v1; v2] g ->
   guard_ok gen_db cRotationGate (inv_params gen_db cRotationGate [v0; v1; v2]) g' ->
   let triv_expm := fun n (A E : BMx CS) => meq n E mid in
-  let ry := eleaf {| e_cls := cRyGate; e_n := 0; e_params := [theta]; e_g := false; e_g' := false |} [3; 4]%nat in
-  let x := eleaf {| e_cls := cPauliXGate; e_n := 0; e_params := []; e_g := false; e_g' := false |} [4]%nat in
+  let ry := eleaf {| e_cls := cRyGate; e_n := 0; e_params := [theta]; e_g := false; e_g' := false |} [4]%nat in
   let rot := eleaf {| e_cls := cRotationGate; e_n := 0; e_params := [v0; v1; v2]; e_g := g; e_g' := g' |} [4]%nat in
-  let t := Ctrl [true; false] [0; 1]%nat (Mux 1 [2]%nat [Ctrl [false] [3]%nat x; Ctrl [true] [3]%nat rot]) in
+  let t := Ctrl [true; false] [0; 1]%nat (Mux 1 [2]%nat [Ctrl [false] [3]%nat ry; Ctrl [true] [3]%nat rot]) in
   num_wires t = 5%nat /\ unitary 5 (matrix t).
 Proof.
-  intros theta v0 v1 v2 g g' G G' triv_expm ry x rot t. split; [reflexivity|].
+  intros theta v0 v1 v2 g g' G G' triv_expm ry rot t. split; [reflexivity|].
   assert (Hexp : forall n A E, triv_expm n A E -> antiherm n A -> unitary n E).
   { intros n A E H _. eapply unitary_meq; [apply meq_sym; exact H|apply unitary_mid]. }
   apply (C01t_any_gate_tree_over_elementary_classes_is_unitary triv_expm Hexp t).
